@@ -596,6 +596,16 @@ def run(ctx):
     r6_equality_symmetry(ctx, sym)
     r7_unit_test(ctx, sym)
     r8_constructible(ctx, sym, h)
+    # the proxy model PV used by R5 assumes the real proxy's rich comparisons forward their own operator to the
+    # unwrapped pair; discharge that here for the six comparisons the ordering/equality assertions go through
+    from .c16 import r4c_comparisons, RESULT, COMPARISONS
+    rmod = ctx.repo.module(RESULT)
+    rcls = rmod.cls('SandboxResult')
+    have = {n.name for n in rcls.body if isinstance(n, ast.FunctionDef)}
+    for op in COMPARISONS:
+        ctx.check('__%s__' % op in have, 'R9', 'SandboxResult.__%s__:defined' % op, rmod, rcls,
+                  "the proxy does not define __%s__" % op, "ordering assertion on a proxied operand")
+    r4c_comparisons(ctx, rcls, rmod, have, rid='R9')
     ctx.assume("the proxy model PV mirrors a transparent SandboxResult (guaranteed by C16); value-level behaviour of "
                "equality_test beyond the tabulated pairs (tolerance arithmetic, normalisation strings), assert_type's "
                "subtype relation (C19 covers its inputs) and the output-assertion family are not decided")
